@@ -581,7 +581,7 @@ def run(ctx, replay_cases=None):
         b = {"name": "torn-big-write", "names": [A], "reqs": [R1[1]], "prior": [],
              "victim": [op("open", d=A, stamp=R1[0], req=R1[1]), op("write", tag=1), op("write", tag=2, big=True)], "after": []}
         tb = []
-        for i, (sc, st) in enumerate(((w, step), (u, step), (b, step * 19))):
+        for i, (sc, st) in enumerate(((w, step), (u, step), (b, step * 19 if ctx.tier == "quick" else 4))):
             o = byte_prefixes(ctx, tool, sc, i, st)
             ctx.cov["kill_points"][sc["name"]] = {"byte_prefixes": len(o)}
             tb += o
@@ -607,7 +607,22 @@ def run(ctx, replay_cases=None):
     ]
     if ctx.tier == "thorough":
         ctx.coqchk()
-    return ctx.finish()
+    return ctx.finish(search=lambda: search(ctx, tool))
+
+
+def search(ctx, tool):
+    """extra budget when only a proof obligation / the correspondence broke: EVERY kill point of every scenario (thorough set)
+    through the P1-P4 monitor; returns the first failing input outside the known classes"""
+    for i, sc in enumerate(scenarios("thorough")):
+        r = scenario_run(ctx, tool, sc, 100 + i, None, vlib.Rng(ctx.seed))
+        if not r:
+            continue
+        obs, pts = r
+        for o in obs:
+            for clause, text, cls in monitor(sc, o["n_acked"], o["dump"]):
+                if ctx.match_known({"class": cls, "clause": clause}, "monitor") is None:
+                    return {"scenario": sc, "kill": o["kill"], "n_acked": o["n_acked"], "clause": clause, "what": text}
+    return None
 
 
 def replay(ctx, path):
